@@ -21,9 +21,12 @@ package text
 
 // Form XObjects can invoke one another (and themselves): the mutual recursion invokeXObject <-> processOperation
 // is bounded by the nesting counter.
+// C08: the form's /Matrix is concatenated INSIDE the state saved for the form (q ... Q around the whole invocation), so
+// it cannot survive the Do operator
 //@ func (*Extractor) invokeXObject results (err)
-//@   property C02
+//@   property C02, C08
 //@   flags nosafety
+//@   callsite Transform(m) requires form_matrix_inside_the_saved_state: len(e.gs.stack) == old(len(e.gs.stack)) + 1
 //@   decreases e.maxXObjectDepth - e.xobjectDepth, 0
 //@   ensures depth_restored: e.xobjectDepth == old(e.xobjectDepth) && e.maxXObjectDepth == old(e.maxXObjectDepth)
 //@   loop 0:
